@@ -393,6 +393,104 @@ def fam_accept_encoding():
     return out
 
 
+def _payloads():
+    import random
+    rnd = random.Random(7)
+    return {"empty": b"", "tiny": b"a", "text": b"hello, gzip world\n" * 3, "random": bytes(rnd.randrange(256) for _ in range(300)), "zeros": b"\0" * 2000}
+
+
+def fam_gzip():
+    """C09 (bounded cross-check of the assumed flate2 contract, end to end): write/flush histories x levels 1..9 x chunk sizes."""
+    pl = _payloads()
+    hx = lambda b: b.hex()
+    hist = []
+    for name, p in pl.items():
+        half = len(p) // 2
+        hist += [
+            (name + ":write-drop", ["L" + hx(p), "X", "D"]),
+            (name + ":write-flush-drain-drop", ["L" + hx(p), "F", "D", "X", "D"]),
+            (name + ":two-writes-two-flushes", ["L" + hx(p[:half]), "F", "D", "L" + hx(p[half:]), "F", "D", "X", "D"]),
+            (name + ":flush-first", ["F", "D", "L" + hx(p), "F", "F", "D", "X", "D"]),
+            (name + ":partial-writes", ["W" + hx(p), "W" + hx(p[1:]), "F", "D", "X", "D"]),
+            (name + ":poll-interleaved", ["P", "L" + hx(p[:half]), "P", "F", "P", "L" + hx(p[half:]), "P", "X", "D"]),
+        ]
+    out, k = [], 0
+    for cs in (1, 2, 3, 7, 64, 4096, 65536):
+        for level in range(1, 10):
+            if cs in (2, 3, 64, 65536) and level not in (1, 6, 9):
+                continue
+            for name, ops in hist:
+                k += 1
+                out.append({"id": "gz%d" % k, "kind": "gzip", "name": name, "chunk": cs, "ae": "gzip", "level": level, "method": "GET", "ops": ops})
+    return out
+
+
+def oracle_gzip(pid, sc, ob):
+    """C09 on one observed run: after every flush the frames so far decode to everything written before it; after the
+    writer is dropped the body is exactly one well-formed gzip member of the written bytes."""
+    if pid != "C09":
+        return None
+    if ob["panic"] is not None:
+        return "panic: " + ob["panic"]
+    import zlib
+    hd = dict(ob["headers"])
+    if hd.get("content-encoding") != b"gzip":
+        return "gzip negotiated (Accept-Encoding: gzip, level %d) but no Content-Encoding: gzip" % sc["level"]
+    written, flushed, data = b"", None, b""
+    dropped, term = False, None
+    for op, r0 in zip(sc["ops"], ob["results"]):
+        r = r0.split("!")[0]
+        c = op[0]
+        if c == "L" and r == "lo":
+            written += bytes.fromhex(op[1:])
+        elif c == "W" and r.startswith("w") and r[1:].isdigit():
+            written += bytes.fromhex(op[1:])[:int(r[1:])]
+        elif c in "WLF" and r in ("we", "le", "fe"):
+            return "%s failed on a live gzip body" % {"W": "write", "L": "write_all", "F": "flush"}[c]
+        elif c == "F" and r == "fo":
+            flushed = written
+        elif c == "X":
+            dropped = True
+        elif c == "P" and ">" in r:
+            ev = r.split(">", 1)[1]
+            if ev[0] == "D":
+                data += bytes.fromhex(ev[1:])
+            elif ev[0] in "NE":
+                term = ev[0]
+        elif c == "D" and r != "d-":
+            hexd, frames, shortest, t = r[1:].split(":")
+            data += bytes.fromhex(hexd)
+            if t in "NE":
+                term = t
+            if t == "L":
+                return "body did not end within 20000 frames"
+            if not dropped and flushed is not None:
+                d = zlib.decompressobj(31)
+                try:
+                    plain = d.decompress(data)
+                except Exception as e:
+                    return "frames available after flush are not decodable gzip data: %s" % e
+                if not plain.startswith(flushed):
+                    return "after flush a streaming decoder reproduces %d of the %d bytes written before the flush" % (len(plain), len(flushed))
+    if dropped:
+        if term != "N":
+            return "writer dropped but the body ended with %r" % term
+        d = zlib.decompressobj(31)
+        try:
+            plain = d.decompress(data) + d.flush()
+        except Exception as e:
+            return "body is not a well-formed gzip member: %s" % e
+        if not d.eof:
+            return "gzip member is truncated (no trailer)"
+        if d.unused_data:
+            return "%d trailing bytes after the gzip member" % len(d.unused_data)
+        if plain != written:
+            return "gzip member decodes to %d bytes, %d were written" % (len(plain), len(written))
+        if data[:3] != b"\x1f\x8b\x08":
+            return "bad gzip header"
+    return None
+
+
 def fam_build():
     out = []
     k = 0
@@ -554,7 +652,11 @@ def judge(pid, test, scs, lines):
     if is_stream:
         obs = {sc["id"]: (sc, parse_stream_obs(ln), ln) for sc, ln in zip(scs, lines)}
         for i, (sc, o, ln) in obs.items():
-            if sc.get("kind") == "build":
+            if sc.get("kind") == "gzip":
+                why = oracle_gzip(pid, sc, o)
+                if why:
+                    return sc, ln, why, None
+            elif sc.get("kind") == "build":
                 pr = obs.get(i[:-2]) if i.endswith(":h") else None
                 why = oracle_build(pid, sc, o, (pr[0], pr[1]) if pr else None)
                 if why:
@@ -606,6 +708,8 @@ def fam_stream_disconnect():
 FAMILIES[("chunker", "Reader::drop")] = ("stream_witness", fam_stream_disconnect)
 FAMILIES[("chunker", "Reader")] = ("stream_witness", lambda: fam_stream_ops(5, (2, 3)) + fam_stream_ops(4, (1,)))
 FAMILIES[("chunker", "Writer")] = FAMILIES[("chunker", "Reader")]
+FAMILIES[("gzipbody", "")] = ("stream_witness", fam_gzip)
+FAMILIES[("build", "BodyWriter")] = ("stream_witness", fam_gzip)
 FAMILIES[("file", "")] = ("file_witness", fam_file)
 FAMILIES[("build", "")] = ("stream_witness", fam_build)
 FAMILIES[("gz", "")] = ("stream_witness", fam_accept_encoding)
@@ -1286,11 +1390,11 @@ if __name__ == "__main__":
                     print("C18", why, file_line(sc), "\n   ", ln)
         print(len(scs), "scenarios", bad, "oracle failures")
         sys.exit(0)
-    if fam in ("ae", "bd"):
-        scs = fam_accept_encoding() if fam == "ae" else fam_build()
+    if fam in ("ae", "bd", "gz"):
+        scs = {"ae": fam_accept_encoding, "bd": fam_build, "gz": fam_gzip}[fam]()
         lines = run_native("stream_witness", [stream_line(x) for x in scs])
         bad = 0
-        for pid in ("C15", "C16", "C17"):
+        for pid in ("C09", "C15", "C16", "C17"):
             rest_scs, rest_lines = list(scs), list(lines)
             hit = judge(pid, "stream_witness", rest_scs, rest_lines)
             if hit:
